@@ -566,8 +566,8 @@ fn machine_programs(r: &mut Rng) -> Vec<String> {
         .collect()
 }
 
-const LONG_RUNS: usize = 7;
-const LONG_RUN_NAMES: [&str; LONG_RUNS] = ["floats-into-old-array", "strings-into-old-array", "arrays-into-old-array", "old-globals", "inside-a-function", "through-an-old-outer-array", "old-array-from-an-earlier-loop"];
+const LONG_RUNS: usize = 9;
+const LONG_RUN_NAMES: [&str; LONG_RUNS] = ["floats-into-old-array", "strings-into-old-array", "arrays-into-old-array", "old-globals", "inside-a-function", "through-an-old-outer-array", "old-array-from-an-earlier-loop", "a-collection-per-iteration", "a-collection-per-iteration-deep-recursion"];
 
 /// (program, value): an array that has survived a collection receives fresh heap values in a loop of `n` iterations that
 /// also makes garbage; after the loop (and one more collection) everything is read back
@@ -606,6 +606,16 @@ fn long_run(which: usize, n: usize) -> (String, Val) {
         5 => (
             format!("functie maak() {{ [[0.5, 0.5, 0.5, 0.5, 0.5, 0.5, 0.5, 0.5], \"buiten\"] }}; functie lees() {{ 0 }}; stel buiten = maak(); stel i = 0; zolang i < {n} {{ stel binnen = buiten[0]; binnen[i % 8] = float(i) * 1.5; stel rommel = [i, \"weg\"]; i += 1 }}; lees(); buiten", n = n),
             Val::Array(vec![Val::Array(floats), Val::Str("buiten".to_string())]),
+        ),
+        7 => (
+            // a function returns in every iteration: more than 2^16 (2^20, 2^21) collections in one run, each with survivors
+            format!("functie doos(x) {{ [x, float(x) * 1.5] }}; stel oud = [0, 0, 0, 0, 0, 0, 0, 0]; stel zelden = [0, 0, 0, 0, 0, 0, 0, 0]; stel i = 0; zolang i < {n} {{ stel d = doos(i); oud[i % 8] = d; als i % {p} == 0 {{ zelden[i / {p}] = d; 0 }}; i += 1 }}; [oud[0], oud[7], zelden[0], zelden[4], zelden[5]]", n = n, p = p),
+            Val::Array(vec![Val::Array(vec![Val::Int(last(0) as i64), f(last(0))]), Val::Array(vec![Val::Int(last(7) as i64), f(last(7))]), Val::Array(vec![Val::Int(0), f(0)]), Val::Array(vec![Val::Int((4 * p) as i64), f(4 * p)]), Val::Int(0)]),
+        ),
+        8 => (
+            // the same from inside a recursion 200 deep (the collections run with 200 frames of roots)
+            format!("functie doos(x) {{ [x, float(x) * 1.5] }}; stel oud = [0, 0, 0, 0, 0, 0, 0, 0]; functie diep(k, n) {{ stel hier = [float(k) + 0.5]; als k > 0 {{ antwoord diep(k - 1, n) + hier[0] * 0.0 }}; stel i = 0; zolang i < n {{ oud[i % 8] = doos(i); i += 1 }}; 1.0 }}; [diep(200, {n}), oud[0], oud[7]]", n = n),
+            Val::Array(vec![Val::Float(1.0), Val::Array(vec![Val::Int(last(0) as i64), f(last(0))]), Val::Array(vec![Val::Int(last(7) as i64), f(last(7))])]),
         ),
         _ => (
             // the old array is made by an earlier loop of the same size (no function at all until the end)
